@@ -68,6 +68,32 @@ aio_cb(void *arg)
 	aio_kind[i] = 0;
 }
 
+// header word of `send`: hex, or `@<p>[+<hex>]` = the 4-byte (big-endian) id of mock
+// pipe <p> (0 when it no longer exists) followed by optional further header bytes
+static uint8_t *
+parse_hdr(const char *s, size_t *lenp)
+{
+	if (s[0] != '@') {
+		return (parse_hex(s, lenp));
+	}
+	int         pi   = atoi(s + 1);
+	uint32_t    id   = (pi >= 0 && pi < 64) ? mock_pipe_id(pi) : 0;
+	const char *plus = strchr(s, '+');
+	size_t      xl   = 0;
+	uint8_t    *x    = plus != NULL ? parse_hex(plus + 1, &xl) : NULL;
+	uint8_t    *h    = malloc(4 + xl);
+	h[0]             = (uint8_t) (id >> 24);
+	h[1]             = (uint8_t) (id >> 16);
+	h[2]             = (uint8_t) (id >> 8);
+	h[3]             = (uint8_t) id;
+	if (x != NULL) {
+		memcpy(h + 4, x, xl);
+		free(x);
+	}
+	*lenp = 4 + xl;
+	return (h);
+}
+
 static nng_duration
 parse_mode(const char *s)
 {
@@ -217,6 +243,17 @@ main(void)
 			finish_line();
 			continue;
 		}
+		if (IS("sendp") && vn == 7) {
+			// sendp <ctx|-> <aio> <p> <hdrhex> <bodyhex> <mode>: `send` whose header is the
+			// library's id of mock pipe <p> (big endian) followed by <hdrhex>
+			static char hb[2 * 256 + 16];
+			snprintf(hb, sizeof(hb), "%08x%s", (unsigned) mock_pipe_id(atoi(vw[3])), strcmp(vw[4], "-") == 0 ? "" : vw[4]);
+			vw[3] = hb;
+			vw[4] = vw[5];
+			vw[5] = vw[6];
+			vn    = 6;
+			op    = "send";
+		}
 		if (!sock_open && !IS("advance")) {
 			printf("nosock\n");
 			continue;
@@ -255,7 +292,7 @@ main(void)
 			// send <ctx|-> <aio> <hdrhex> <bodyhex> <nb|inf|ms>
 			int      a = atoi(vw[2]);
 			size_t   hl, bl;
-			uint8_t *h = parse_hex(vw[3], &hl);
+			uint8_t *h = parse_hdr(vw[3], &hl);
 			uint8_t *b = parse_hex(vw[4], &bl);
 			nng_msg *m;
 			if (aio_kind[a] != 0) {
